@@ -17,7 +17,7 @@ file and keeps the decoded maps; every later line is answered from them:
 `hol.raw <pub|school>` carries the pair the binary really embeds (region string + the still deflated
 bytes): the Lean model of inflate (`OH.Model.Inflate`) must turn the bytes into EXACTLY the model's
 `encodeDb` of the source file, and the string must be the model's `regionNames` (the hypotheses of
-`OH.Props.C10I.C10_embedded_bytes_*`) → `fail embedded-bytes-…`.
+`OH.Props.C10I.C10_embedded_bytes_*`) → `fail embedded-bytes-…` (a stream that inflates to another encoding than the model's: `disagree class=embedded-format`).
 The reading of the file is IO; everything else is the pure `handle`.
 -/
 namespace OH.Driver.C10
@@ -327,7 +327,12 @@ def handleRaw (L : Loaded) (kind : String) (impl : List String) : Option String 
         | .error e => some s!"fail embedded-bytes-do-not-inflate model={e.replace " " "_"} compressed={z.size}"
         | .ok bytes =>
           if bytes != k.encoded then
-            some s!"fail embedded-bytes-differ-from-encoding-of-source inflated={bytes.length} model-encoding={k.encoded.length} first-diff=@{firstDiffNat bytes k.encoded}"
+            -- the bytes inflate, but to something else than the MODEL's encoding of the source: the byte format is a
+            -- matter of the model (hypothesis `inflateNat z = encodeDb db` of OH.Props.C10I), not of the property — a
+            -- change of the serialization format used consistently by build.rs and the decoder keeps every embedded
+            -- calendar equal to the source.  A broken correspondence, not a failing input: whether a calendar differs
+            -- from the source is decided by the `hol.cal` lines on the implementation's own decoded calendars
+            some s!"disagree class=embedded-format model=encoding-of-source:{k.encoded.length}-bytes inflated={bytes.length} first-diff=@{firstDiffNat bytes k.encoded}"
           else if regions != k.names then
             some s!"fail embedded-bytes-regions-string model={enc (clip k.names)} impl={enc (clip regions)}"
           else
